@@ -91,18 +91,12 @@ def accepted_roundings(observed):
     """units whose standard value has no exact decimal: the tool's value is accepted iff it is a correct rounding of
     the defining expression at the precision it is given with (decided from the standards table, vocab/units.py)"""
     sys.path.insert(0, os.path.join(vlib.ROOT, "vocab"))
-    sys.path.insert(0, os.path.join(vlib.ROOT, "bin"))
     import units as V
-    import importlib.machinery, importlib.util
-    loader = importlib.machinery.SourceFileLoader("gen_tables_mod", os.path.join(vlib.ROOT, "bin", "gen_tables"))
-    src = open(os.path.join(vlib.ROOT, "bin", "gen_tables")).read().replace("\nmain()\n", "\n")
-    ns = {}
-    exec(compile(src, "gen_tables", "exec"), ns)
     acc = {}
     for k, e in V.DERIVED.items():
         extra = e[4] if len(e) > 4 else []
         if any(a[0] == "round" for a in extra) and k in observed:
-            if ns["sig_digits_round_ok"](observed[k], e[2], 3):
+            if V.sig_digits_round_ok(observed[k], e[2], 3):
                 acc[k] = {"n": vlib.digits(str(observed[k].numerator)), "d": vlib.digits(str(observed[k].denominator))}
     return acc
 
